@@ -33,7 +33,7 @@ struct Task {
   notified: AtomicBool,
   q: Arc<Pool>,
 }
-/// log id of the pool's own events: task_spawn / task_begin / task_ready / task_pending (value = task id)
+/// log id of the pool's own events: task_spawn (value = task id) and task_run (a poll that finished a task; value = begin stamp << 16 | task id)
 pub const TASK_EV: u32 = 2900;
 pub struct Pool {
   log: Mutex<Option<Log>>,
@@ -89,9 +89,13 @@ impl Pool {
     if let Some(mut f) = fut {
       let w = waker(t.clone());
       let mut cx = Context::from_waker(&w);
-      self.ev("task_begin", t.id);
+      // only a poll that finishes the task is an operation of its own; it is
+      // logged afterwards as one event carrying the stamp taken before the poll
+      let begin = stamp();
       let r = f.as_mut().poll(&mut cx);
-      self.ev(if r.is_ready() { "task_ready" } else { "task_pending" }, t.id);
+      if r.is_ready() {
+        self.ev("task_run", ((begin as i64) << 16) | (t.id & 0xffff));
+      }
       match r {
         Poll::Ready(()) => {
           self.live.fetch_sub(1, Ordering::SeqCst);
@@ -332,7 +336,8 @@ pub fn run_scen(s: &Scen, seed: u64, strategy: Strategy) -> Outcome {
   let peek_at_end = if s.kind == Kind::Behavior && baton.deadlock.is_none() && !baton.timed_out { Some(Behavior::<V, E>::peek(&beh)) } else { None };
   let out = Outcome { baton, evs: log.evs(), overlaps: log.overlaps(), peek_at_end, spawned_tasks: pool.spawned.load(Ordering::SeqCst), live_tasks: pool.live.load(Ordering::SeqCst), pending_timers: crate::vtime::pending_count() };
   // leak what the scenario built: if the run was abandoned (deadlock) its
-  // cells may still be locked by parked threads
+  // cells may still be locked by parked threads; the recorded events are freed
+  log.clear();
   std::mem::forget(subs);
   std::mem::forget(cx);
   out
@@ -643,8 +648,11 @@ pub fn rate_linearizable(o: &Outcome, s: &Scen) -> Option<(String, serde_json::V
   for e in &o.evs {
     if let K::Mark(w, v) = e.k {
       match w {
-        "next_call" | "term_call" | "task_begin" => {
+        "next_call" | "term_call" => {
           open.insert((e.thread, w, v), e.seq);
+        }
+        "task_run" => {
+          ops.push(OpRec { k: OpK::End(v & 0xffff), thread: e.thread, begin: (v >> 16) as u64, end: e.seq, out: vec![], spawned: vec![] });
         }
         "next_ret" => {
           if let Some(b) = open.remove(&(e.thread, "next_call", v)) {
@@ -661,14 +669,6 @@ pub fn rate_linearizable(o: &Outcome, s: &Scen) -> Option<(String, serde_json::V
             }
             ops.push(OpRec { k: if is_c { OpK::Complete } else { OpK::Error }, thread: e.thread, begin: b, end: e.seq, out: vec![], spawned: vec![] });
           }
-        }
-        "task_ready" => {
-          if let Some(b) = open.remove(&(e.thread, "task_begin", v)) {
-            ops.push(OpRec { k: OpK::End(v), thread: e.thread, begin: b, end: e.seq, out: vec![], spawned: vec![] });
-          }
-        }
-        "task_pending" => {
-          open.remove(&(e.thread, "task_begin", v));
         }
         _ => {}
       }
@@ -916,6 +916,7 @@ pub fn closed_sampling_race(opk: usize, items: usize, error: bool, seed: u64, st
     }
   });
   let evs = log.evs();
+  log.clear();
   let mut problem = None;
   let mut first_true: Option<u64> = None;
   for e in &evs {
@@ -1763,6 +1764,7 @@ pub fn run_scen_free_mode(s: &Scen, mode: u8, seed: u64) -> Outcome {
   let panics: Vec<(usize, String)> = vec![];
   let baton = BatonOutcome { panics, finished: vec![!timed_out; s.threads.len()], timed_out, ..Default::default() };
   let out = Outcome { baton, evs: log.evs(), overlaps: log.overlaps(), peek_at_end: None, spawned_tasks: 0, live_tasks: pool.live.load(Ordering::SeqCst), pending_timers: crate::vtime::pending_count() };
+  log.clear();
   if timed_out {
     std::mem::forget(subs);
     std::mem::forget(cx);
